@@ -128,6 +128,7 @@ func loadWorld(repo string, goarch string, overlay map[string][]byte) (*World, e
 			w.SSAPkgs[pkgs[i].PkgPath] = sp
 		}
 	}
+	computeWriteOnlyFields(w)
 	return w, nil
 }
 
